@@ -406,7 +406,9 @@ def skolemize_goal(goal):
 
 
 def _is_uconst(t):
-    return z3.is_app(t) and t.num_args() == 0 and t.decl().kind() == z3.Z3_OP_UNINTERPRETED
+    """program-generated constant (name contains '#'); literals and theory constants are
+    never rewritten"""
+    return z3.is_app(t) and t.num_args() == 0 and t.decl().kind() == z3.Z3_OP_UNINTERPRETED and "#" in t.decl().name()
 
 
 def _contains(t, c):
@@ -421,6 +423,7 @@ def solve_equalities(ground, foralls, goal_parts, rounds=6):
     hypotheses and are kept) that lets the syntactic matcher see through renamings such
     as `keys' == keys` introduced by loop havoc."""
     subst = []
+    kept = []
     for _ in range(rounds):
         found = None
         for h in ground:
@@ -441,13 +444,14 @@ def solve_equalities(ground, foralls, goal_parts, rounds=6):
             break
         subst.append(found)
         pair = [found]
+        kept.append(found[0] == found[1])
         ground = [z3.substitute(h, pair) for h in ground]
         foralls = [Forall(f.vars, [z3.substitute(t, pair) for t in f.triggers], z3.substitute(f.body, pair), f.name) for f in foralls]
         goal_parts = [z3.substitute(g, pair) for g in goal_parts]
-    return ground, foralls, goal_parts
+    return ground + kept, foralls, goal_parts
 
 
-def check_valid(hyps, goal, extra_axioms=(), timeout_ms=60000, fuel=3, want_model=True):
+def check_valid(hyps, goal, extra_axioms=(), timeout_ms=60000, fuel=3, want_model=True, exclude=(), seed_terms=()):
     """hyps: list of z3 Bool / Forall; goal: z3 Bool / Forall.  Decide hyps |- goal after
     ground instantiation.  Returns (status, info)."""
     t0 = time.time()
@@ -457,9 +461,10 @@ def check_valid(hyps, goal, extra_axioms=(), timeout_ms=60000, fuel=3, want_mode
     ground_h, local_ax, gp = solve_equalities(ground_h, local_ax, [g] + trig_terms)
     g, trig_terms = gp[0], gp[1:]
     neg = z3.Not(g)
-    seeds = ground_h + [neg] + TH.ground + [t == t for t in trig_terms]
+    seeds = ground_h + [neg] + TH.ground + [t == t for t in list(trig_terms) + list(seed_terms)]
+    axioms = [a for a in TH.axioms if a.name not in exclude]
     try:
-        insts = instantiate(TH.axioms + list(extra_axioms) + local_ax, seeds, fuel=fuel)
+        insts = instantiate(axioms + list(extra_axioms) + local_ax, seeds, fuel=fuel)
     except RuntimeError as e:
         return "undecided", {"reason": str(e), "seconds": time.time() - t0}
     s = z3.Solver()
